@@ -7,6 +7,9 @@
                   output port index and the subscriber's input port (Apply(i) = i, Train = 1000, Label = 1001)
          perf   = (error) | <comp>
          action = (train|apply|perftrack|serve  none|<generation>  run  hp  shift  <crash>  <race>  <via>)
+         or (process shared): marker - all actions of the history run in one process (warm TAGS/STATES caches)
+         or (prune <generation>): housekeeping - the generation is removed from the registry (the history then runs on
+            the sparse registry, `stepS`; steps answer (ok <number of generations> (<obs> ...) (<listed keys> ...)))
            via    = none | (<handle id> <keeps runners: true|false>): the action works through a long-lived handle
                     (an `asset.Instance` kept across actions; faults are not combined with handles)
            crash  = none | <k>: (train) the process dies inside its commit, <k> micro-steps completed (a proper prefix)
@@ -31,6 +34,7 @@ import ForML.Model.PersistCommit
 import ForML.Model.PersistTraverse
 import ForML.Model.PersistExpr
 import ForML.Model.PersistHandles
+import ForML.Model.PersistSparse
 open ForML ForML.Persist
 
 def bool? : Sexp → Option Bool
@@ -138,6 +142,40 @@ def runActions (cs : Case) : Registry → Views → List (Action × Extra) → L
         let reg'' := settle cs reg reg' (faultOf reg reg' x)
         .list [.atom "ok", Sexp.ofNat reg''.length, .list (obs.map obsSexp)] :: runActions cs reg'' vs rest
 
+/-- an entry of a history: a lifecycle action, the administrator's `(prune <generation>)`, or the marker `(process
+shared)`: all actions run in one process (warm `TAGS`/`STATES` caches) -/
+inductive Entry where
+  | prune (k : Nat)
+  | act (a : Action) (x : Extra)
+  | shared
+
+def entry? : Sexp → Option Entry
+  | .list [.atom "prune", g] => g.nat?.map .prune
+  | .list [.atom "process", .atom "shared"] => some .shared
+  | x => (action? x).map (fun ax => .act ax.1 ax.2)
+
+/-- histories with housekeeping run on the sparse registry (faults and handles are not combined with it); `pc`: the
+caches of the process when all actions share one (`none`: every action in a process of its own) -/
+def runSparseActions (cs : Case) : SReg → Option PC → List Entry → List Sexp
+  | _, _, [] => []
+  | r, pc, .shared :: rest => runSparseActions cs r pc rest
+  | r, pc, .prune k :: rest =>
+    let r' := r.prune k
+    .list [.atom "ok", Sexp.ofNat r'.length, .list [], Sexp.ofNats r'.keys] :: runSparseActions cs r' pc rest
+  | r, pc, .act a x :: rest =>
+    let res := stepSC (cs.rename (· + x.shift) (· + x.shift)) r (pc.getD []) a
+    match res.1 with
+    | .error e => .list [.atom "error", .atom (errName e)] :: runSparseActions cs r (pc.map (fun _ => res.2)) rest
+    | .ok (r', obs) =>
+      .list [.atom "ok", Sexp.ofNat r'.length, .list (obs.map obsSexp), Sexp.ofNats r'.keys]
+        :: runSparseActions cs r' (pc.map (fun _ => res.2)) rest
+
+/-- the history of a case: with a `prune` in it on the sparse registry, else on the dense one (faults, handles) -/
+def runEntries (cs : Case) (entries : List Entry) : List Sexp :=
+  if entries.any (fun e => match e with | .prune _ => true | _ => false) then
+    runSparseActions cs [] (if entries.any (fun e => match e with | .shared => true | _ => false) then some [] else none) entries
+  else runActions cs [] [] (entries.filterMap (fun e => match e with | .act a x => some (a, x) | _ => none))
+
 /-- the extracted perftrack composition against the one the model derives from the plain composition -/
 def perfAgrees (derived perf : Except Err Comp) : String :=
   match derived, perf with
@@ -171,13 +209,13 @@ partial def pexpr? : Sexp → Option PExpr
 
 def stepC04 : Sexp → Sexp
   | .list [.atom "case", c, p, snk, .list acts, ct] =>
-    match comp? c, perf? p, bool? snk, acts.mapM action?, ct.nat? with
+    match comp? c, perf? p, bool? snk, acts.mapM entry?, ct.nat? with
     | some (plain, pe), some perf, some closed, some acts, some copyTail =>
       let cs : Case := ⟨plain, perf⟩
       -- `Segment.copy` resolves a dangling `Future` tail to the publisher it is registered with (`copyTail`)
       let toCopy : Comp := { plain with applyTail := copyTail }
       .list [.atom "ok", wfSexp cs, ptagsSexp plain,
-        .list (runActions cs [] [] acts),
+        .list (runEntries cs acts),
         .list [.atom "perfmodel", .atom (perfAgrees (toCopy.perfMech (· + 500000) closed pe) perf),
           .atom (perfAgrees (plain.perfOf (· + 500000) closed) perf)],
         .list [.atom "copy", Sexp.ofBool (toCopy.copyFaithful pe), Sexp.ofBool (plain.portsOk pe),
@@ -187,11 +225,11 @@ def stepC04 : Sexp → Sexp
     | _, _, _, _, _ => .atom "bad-op"
   -- the composition the model itself expands from the expression (`compOf`), same report
   | .list [.atom "expr", e, snk, .list acts] =>
-    match pexpr? e, bool? snk, acts.mapM action? with
+    match pexpr? e, bool? snk, acts.mapM entry? with
     | some e, some sink, some acts =>
       let plain := compOf e sink
       let cs : Case := ⟨plain, plain.perfOf (· + 500000) sink⟩
-      .list [.atom "ok", wfSexp cs, ptagsSexp plain, .list (runActions cs [] [] acts)]
+      .list [.atom "ok", wfSexp cs, ptagsSexp plain, .list (runEntries cs acts)]
     | _, _, _ => .atom "bad-op"
   -- `SetState.set` on an actor built with hyper-parameter `hp`: (params <flavour> <hp> <state>) -> (<hp> <state>)
   | .list [.atom "params", fl, hp, st] =>
